@@ -316,16 +316,30 @@ Definition stored_form (e : event) : event :=
             (e_valid e) (cut_str (e_errstr e)) (cut_str (e_errname e))
             (if r_qid (root (e_unl e)) =? 0 then e_errbytes e else []) null_obj null_obj [] [].
 
+(* the event object PutPlog returns and keeps in the PLog event cache: with clears = true (the code
+   since c96e94a78) an event that is not valid is cut down to its error record after encoding -
+   argument objects and CUD rows cleared, original bytes forgotten when there is an unlogged
+   argument; with clears = false it is the builder's object unchanged *)
+Definition returned_form_with (clears : bool) (e : event) : event :=
+  if clears && negb (stored_valid e) then
+    mkEvent (e_qid e) (e_part e) (e_poffs e) (e_ws e) (e_woffs e) (e_reg e) (e_sync e) (e_dev e) (e_syncat e)
+            (e_valid e) (e_errstr e) (e_errname e)
+            (if r_qid (root (e_unl e)) =? 0 then e_errbytes e else []) null_obj null_obj [] []
+  else e.
+Definition returned_form : event -> event := returned_form_with c02_putplog_clears_invalid.
+
 (* storeToBytes of an event that was decoded without keeping its bytes (range reads): for an event
-   that is not valid storeEventBuildError writes the event's own name, which after decoding is
-   sys.Error / sys.Corrupted, in place of the original name (c02_reencode_orig_name = false) *)
-Definition reenc_name (e : event) : bytes :=
-  if c02_reencode_orig_name then e_errname e
+   that is not valid storeEventBuildError writes, as the original name, the name kept in the error
+   record (orig = true, the code since 796fe6f32) or the event's own name, which after decoding is
+   sys.Error / sys.Corrupted (orig = false) *)
+Definition reenc_name_with (orig : bool) (e : event) : bytes :=
+  if orig then e_errname e
   else if e_qid e =? c02_qid_corrupted then c02_name_corrupted else c02_name_error.
-Definition reencode (e : event) : bytes :=
+Definition reencode_with (orig : bool) (e : event) : bytes :=
   enc_event (if stored_valid e then e else
     mkEvent (e_qid e) (e_part e) (e_poffs e) (e_ws e) (e_woffs e) (e_reg e) (e_sync e) (e_dev e) (e_syncat e)
-            (e_valid e) (e_errstr e) (reenc_name e) (e_errbytes e) (e_arg e) (e_unl e) (e_creates e) (e_updates e)).
+            (e_valid e) (e_errstr e) (reenc_name_with orig e) (e_errbytes e) (e_arg e) (e_unl e) (e_creates e) (e_updates e)).
+Definition reencode : event -> bytes := reencode_with c02_reencode_orig_name.
 
 (* ================= C. trace checking ================= *)
 
@@ -444,13 +458,18 @@ Definition agrees (t : trace) : bool :=
       | Some e =>
           (* the stored row decodes to what the code read back and re-encodes to itself; what was
              read back is the stored form of what was appended; the callback got the offset;
-             re-encoding the decoded event gives the re-put row *)
+             re-encoding the decoded event gives the re-put row ... *)
           event_eqb (strip e) rd && lex_eqb (enc_event e) raw
           && event_eqb (stored_form pd) rd && off_ok
           && list_eqb N.eqb (accepted_prefixes raw) accepted
           && forallb (fun m => let '(pos, x, acc) := m in
                                if is_some (decode (sch_masks masks) (set_nth (N.to_nat pos) x raw)) then true else negb acc) muts
-          && lex_eqb (reencode e) reraw
+          (* ... up to the order of update rows and emptied-field indexes (Go map order) *)
+          && (length (reencode e) =? length reraw)%nat
+          && match decode sch_any (reencode e), decode sch_any reraw with
+             | Some a, Some b => event_eqb a b
+             | _, _ => false
+             end
       end
   end.
 
